@@ -40,6 +40,13 @@ Table(t) ==
                         D("As", "Architectures", "list", "arch", <<SP>>, <<>>, FALSE, FALSE),
                         D("H", "Checksums-Sha256", "list", "sha256", NL, <<LF, CR, TAB, SP>>, FALSE, FALSE),
                         D("RV", "Req-V", "version", "", <<SP>>, <<>>, TRUE, FALSE) >>
+      [] t = "P6" -> << D("A", "A", "string", "", <<SP>>, <<>>, FALSE, FALSE),
+                        D("M", "-", "other:map[string]string", "", <<SP>>, <<>>, FALSE, FALSE),
+                        D("F", "-", "other:float64", "", <<SP>>, <<>>, FALSE, FALSE),
+                        D("T", "-", "other:time.Time", "", <<SP>>, <<>>, FALSE, FALSE),
+                        D("P", "-", "other:*int", "", <<SP>>, <<>>, FALSE, FALSE),
+                        D("I", "-", "other:interface {}", "", <<SP>>, <<>>, FALSE, FALSE),
+                        D("Z", "Z", "string", "", <<SP>>, <<>>, FALSE, FALSE) >>
       [] t = "P5" -> << D("Paragraph", "", "raw", "", <<>>, <<>>, FALSE, FALSE),
                         D("Name", "Name", "string", "", <<SP>>, <<>>, FALSE, FALSE),
                         D("Count", "Count", "int", "", <<SP>>, <<>>, FALSE, FALSE),
